@@ -97,6 +97,11 @@ def run_app(params, chooser):
                                 info['stopped']))
 
 
+class FalsyStr(str):
+    def __bool__(self):
+        return False
+
+
 def run(params, chooser):
     if params.get('app'):
         return run_app(params, chooser)
@@ -163,6 +168,10 @@ def _run(loop, params, chooser):
                 raise Boom('source %d' % j)
             if len(supplied) < limit[0]:
                 item = 'i%d' % len(supplied)
+                if len(supplied) in params.get('falsy', ()):
+                    # a work item whose truth value is false (0, '', an empty container):
+                    # only None means "nothing available"
+                    item = FalsyStr(item)
                 supplied.append(item)
                 log.append(('supplied', item))
                 return item
@@ -370,6 +379,9 @@ def configs(tier):
         for j in range(K + 1):
             extra.append(dict(K=K, T=1, conc=1, fail_src=j))
             extra.append(dict(K=K, T=1, conc=2, fail_src=j, src_latency=True))
+    # work items that are falsy
+    extra.append(dict(K=2, T=1, conc=1, falsy=[0], no_faults=True))
+    extra.append(dict(K=3, T=2, conc=2, falsy=[1, 2]))
     # a second process() on the same pipeline after the source was refilled
     extra.append(dict(K=1, T=1, conc=1, rerun=2, no_faults=True))
     extra.append(dict(K=2, T=2, conc=2, rerun=1, no_faults=True))
